@@ -21,25 +21,25 @@ Proof.
   - generalize s. induction el as [|q r IH]; intro s0; [reflexivity|]. cbn [exec_list]. destruct (exec q en s0) as [s' [|x]]; [apply IH|reflexivity].
 Qed.
 
-Fixpoint iter_list (body : list stmt) (args : list lbl) (flags : list bool) (xs : list lbl) (s : hg) : hg * outcome :=
+Fixpoint iter_list (body : list stmt) (args : list lbl) (flags : list bool) (a : attrs) (xs : list lbl) (s : hg) : hg * outcome :=
   match xs with
   | [] => (s, Ok)
-  | x :: r => match exec_list body (mkEnv args flags x) s with (s', Ok) => iter_list body args flags r s' | y => y end
+  | x :: r => match exec_list body (mkEnv args flags x a) s with (s', Ok) => iter_list body args flags a r s' | y => y end
   end.
 
 Lemma exec_for t k body en s :
   exec (SForCopy t k body) en s =
   match get (veval k en) (tab t s) with
   | None => (s, Raised IDNotFound)
-  | Some m => iter_list body (e_args en) (e_flags en) m s
+  | Some m => iter_list body (e_args en) (e_flags en) (e_attr en) m s
   end.
 Proof.
   cbn [exec]. destruct (get (veval k en) (tab t s)) as [m|]; [|reflexivity].
   generalize s. induction m as [|x r IH]; intro s0; [reflexivity|]. cbn [iter_list].
   assert (E : forall l s1, (fix go (l : list stmt) (s : hg) : hg * outcome :=
                match l with [] => (s, Ok)
-               | q :: r' => match exec q (mkEnv (e_args en) (e_flags en) x) s with (s', Ok) => go r' s' | y => y end end) l s1
-             = exec_list l (mkEnv (e_args en) (e_flags en) x) s1).
+               | q :: r' => match exec q (mkEnv (e_args en) (e_flags en) x (e_attr en)) s with (s', Ok) => go r' s' | y => y end end) l s1
+             = exec_list l (mkEnv (e_args en) (e_flags en) x (e_attr en)) s1).
   { induction l as [|q r' IHl]; intro s1; [reflexivity|]. cbn [exec_list]. destruct (exec q _ s1) as [s' [|y]]; [apply IHl|reflexivity]. }
   rewrite E. destruct (exec_list body _ s0) as [s' [|y]]; [apply IH|reflexivity].
 Qed.
@@ -78,7 +78,7 @@ Lemma exec_list_nil en s : exec_list [] en s = (s, Ok).
 Proof. reflexivity. Qed.
 
 Ltac hgs := cbn [h_node h_nattr h_edge h_eattr h_net h_uid with_node with_nattr with_edge with_eattr with_uid
-                 tab set_tab atab set_atab veval e_args e_flags e_loop nth].
+                 tab set_tab atab set_atab veval e_args e_flags e_loop e_attr nth].
 Ltac step := rewrite ?exec_list_cons, ?exec_list_nil, ?exec_if, ?exec_newset, ?exec_newattr, ?exec_add, ?exec_remove, ?exec_del,
                      ?exec_delattr, ?exec_uid, ?exec_raise; cbn [beval]; hgs; cbn [negb andb];
              repeat match goal with H : is_none _ = false |- _ => rewrite H end.
@@ -93,7 +93,7 @@ Definition antE_tail : list stmt :=
    SAdd TEdge (VArg 0) (VArg 1); SAdd TNode (VArg 1) (VArg 0)].
 
 Lemma antE_tail_ok e n s1 m : get e (h_edge s1) = Some m ->
-  (let (s', o) := exec_list antE_tail (mkEnv [e; n] [] LNone) s1 in (s', o, O)) =
+  (let (s', o) := exec_list antE_tail (mkEnv [e; n] [] LNone []) s1 in (s', o, O)) =
   (if negb (has n (h_node s1)) && is_none n then raise s1 XGIError
    else ok (node_add n e (edge_add e n (ensure_node n s1)))).
 Proof.
@@ -110,7 +110,7 @@ Qed.
 Theorem add_node_to_edge_is_source e n s :
   run_method src_add_node_to_edge [e; n] [] s = add_node_to_edge e n s.
 Proof.
-  unfold run_method, src_add_node_to_edge, add_node_to_edge. rewrite exec_list_cons, exec_if. cbn [beval]. hgs.
+  unfold run_method, run_method_a, src_add_node_to_edge, add_node_to_edge. rewrite exec_list_cons, exec_if. cbn [beval]. hgs.
   destruct (has e (h_edge s)) eqn:He; cbn [negb andb].
   - rewrite exec_list_nil. unfold has in He. destruct (get e (h_edge s)) as [m|] eqn:Ge; [|discriminate He].
     apply (antE_tail_ok e n s m Ge).
@@ -131,7 +131,7 @@ Qed.
 
 Lemma iter_remove_ok e : forall xs s, NoDup xs ->
   (forall x, In x xs -> exists l, get x (h_node s) = Some l /\ mem e l = true) ->
-  iter_list [SRemove TNode VLoop (VArg 0)] [e] [] xs s = (fold_left (fun s n => node_rem n e s) xs s, Ok).
+  iter_list [SRemove TNode VLoop (VArg 0)] [e] [] [] xs s = (fold_left (fun s n => node_rem n e s) xs s, Ok).
 Proof.
   induction xs as [|x xs IH]; intros s ND H; [reflexivity|]. cbn [iter_list fold_left].
   inversion ND as [|? ? Hx ND']; subst. destruct (H x (or_introl eq_refl)) as (l & Gl & Ml).
@@ -146,7 +146,7 @@ Qed.
 Theorem remove_edge_is_source e s : Inv s ->
   run_method src_remove_edge [e] [] s = remove_edge1 e s.
 Proof.
-  intros (W & (_ & Kea & _ & _) & (_ & Vm) & _). unfold run_method, src_remove_edge, remove_edge1.
+  intros (W & (_ & Kea & _ & _) & (_ & Vm) & _). unfold run_method, run_method_a, src_remove_edge, remove_edge1.
   rewrite exec_list_cons, exec_for. hgs. destruct (get e (h_edge s)) as [m|] eqn:Ge; [|reflexivity].
   assert (Hm : mems s e = m) by (unfold mems, getl; rewrite Ge; reflexivity).
   rewrite (iter_remove_ok e m s).
@@ -165,7 +165,7 @@ Qed.
 Theorem remove_node_from_edge_is_source e n re s : Inv s ->
   run_method src_remove_node_from_edge [e; n] [re] s = remove_node_from_edge e n re s.
 Proof.
-  intros (W & (_ & Kea & _ & _) & _ & _). unfold run_method, src_remove_node_from_edge, remove_node_from_edge.
+  intros (W & (_ & Kea & _ & _) & _ & _). unfold run_method, run_method_a, src_remove_node_from_edge, remove_node_from_edge.
   rewrite exec_list_cons, exec_if. cbn [beval]. hgs.
   destruct (has e (h_edge s)) eqn:He; cbn [negb]; [|repeat step; reflexivity].
   rewrite exec_list_cons, exec_if. cbn [beval]. hgs.
@@ -195,4 +195,26 @@ Proof.
     assert (Hea : has e (h_eattr s) = true) by (apply has_In; rewrite Kea; apply (get_Some_In e (h_edge s) m Ge)).
     rewrite Hea. unfold ok, drop_edge. rewrite H1a, H1e. reflexivity.
   - repeat step. reflexivity.
+Qed.
+
+(* ---------- add_node(node, **attr): whenever the attribute table has the keys of the node table (KWF) ---------- *)
+Lemma exec_attrupdate t k en s : exec (SAttrUpdate t k) en s =
+  match get (veval k en) (atab t s) with
+  | Some d => (set_atab t s (set (veval k en) (aupdate d (e_attr en)) (atab t s)), Ok)
+  | None => (s, Raised IDNotFound)
+  end.
+Proof. reflexivity. Qed.
+
+Theorem add_node_is_source n a s : keys (h_nattr s) = keys (h_node s) ->
+  run_method_a src_add_node [n] [] a s = add_node n a s.
+Proof.
+  intro K. unfold run_method_a, src_add_node, add_node. rewrite exec_list_cons, exec_if. cbn [beval]. hgs.
+  destruct (has n (h_node s)) eqn:Hn; cbn [negb].
+  - rewrite exec_list_nil, exec_list_cons, exec_attrupdate. hgs.
+    assert (Ha : has n (h_nattr s) = true) by (apply has_In; rewrite K; apply has_In; exact Hn).
+    unfold has in Ha. destruct (get n (h_nattr s)) as [d|] eqn:Gd; [|discriminate Ha].
+    rewrite exec_list_nil. unfold ok, nattr_update, geta. rewrite Gd. reflexivity.
+  - repeat step. destruct (is_none n) eqn:Nn; [reflexivity|]. repeat step. rewrite exec_attrupdate. hgs.
+    rewrite get_set_same. repeat step.
+    unfold ok, nattr_update, ensure_node, geta. rewrite Hn. hgs. rewrite get_set_same. reflexivity.
 Qed.
